@@ -8,7 +8,7 @@
     body is the premise [prims_respect]; it is validated by the recording backend and the source scan
     on every run, not proved. *)
 From Coq Require Import List Arith ZArith NArith Bool String.
-From UV Require Import Model.Node Model.Gate Proofs.Gate Proofs.GateSession Gen.Purity Proofs.GateTables.
+From UV Require Import Model.Node Model.Gate Proofs.Gate Proofs.GateSession Proofs.GateCompile Gen.Purity Proofs.GateTables.
 Import ListNotations.
 
 (** A tree the implementation judges pure emits no backend call at all when it is run: for every
@@ -196,6 +196,53 @@ Theorem C20_precache_same_history_repaired :
   comptime_cached nat Nat.eqb (option string) eval (fun _ => false) c1 1 7 = (None, ["file_read_all"%string], []).
 Proof. exact cache_same_history_repaired. Qed.
 
+(** A WHOLE COMPILE.  A program is a list of items: top-level lines (pre-evaluated only above Line
+    mode), constant bindings (evaluated by comptime_node only if is_pure), other bindings and index
+    macros (nothing runs), the end-of-load pass over all function bodies, and the routes that are not
+    gated: explicit comptime, and the two open findings - code macros and imports.
+    A constant binding makes no backend call in ANY mode, the editor's included. *)
+Theorem C20_const_binding_silent :
+  forall lprim lmod asm fext binds big sigok gfuel St psem msem nsem win wout swsel dynsem rfuel s0 import_events,
+  prims_respect lprim St psem -> mods_respect lmod St msem ->
+  forall mt, macros_ok lprim lmod asm fext binds Pure mt ->
+  forall mode ns, forallb (mac_in mt) ns = true ->
+  ctrace lprim lmod asm fext binds big sigok gfuel St psem msem nsem win wout swsel dynsem rfuel s0 import_events
+    mode (IConstBind ns) = [].
+Proof. exact const_binding_silent. Qed.
+(** Outside editor mode a compile made of gated items calls no backend method at all ... *)
+Theorem C20_gated_compile_silent :
+  forall lprim lmod asm fext binds big sigok gfuel St psem msem nsem win wout swsel dynsem rfuel s0 import_events,
+  prims_respect lprim St psem -> mods_respect lmod St msem ->
+  forall mt, macros_ok lprim lmod asm fext binds Pure mt ->
+  forall mode items, mode <> Lsp ->
+  (forall it, In it items -> gated_item it = true /\ forallb (mac_in mt) (item_nodes it) = true) ->
+  compile_trace lprim lmod asm fext binds big sigok gfuel St psem msem nsem win wout swsel dynsem rfuel s0 import_events
+    mode items = [].
+Proof. exact gated_compile_silent. Qed.
+(** ... in editor mode only read-only ones (on the compiler's own backend, C20_comptime_backend_own) ... *)
+Theorem C20_gated_compile_lsp_readonly :
+  forall lprim lmod asm fext binds big sigok gfuel St psem msem nsem win wout swsel dynsem rfuel s0 import_events,
+  prims_respect lprim St psem -> mods_respect lmod St msem ->
+  forall mt, macros_ok lprim lmod asm fext binds Pure mt ->
+  forall items, (forall it, In it items -> gated_item it = true /\ forallb (mac_in mt) (item_nodes it) = true) ->
+  Forall (fun e => read_only e = true)
+    (compile_trace lprim lmod asm fext binds big sigok gfuel St psem msem nsem win wout swsel dynsem rfuel s0 import_events
+       Lsp items).
+Proof. exact gated_compile_lsp_readonly. Qed.
+(** ... and for ANY program outside editor mode, every backend call made while compiling comes from an
+    item that is one of the explicit exceptions: comptime, a code macro, an import. *)
+Theorem C20_compile_calls_from_exceptions :
+  forall lprim lmod asm fext binds big sigok gfuel St psem msem nsem win wout swsel dynsem rfuel s0 import_events,
+  prims_respect lprim St psem -> mods_respect lmod St msem ->
+  forall mt, macros_ok lprim lmod asm fext binds Pure mt ->
+  forall mode items e, mode <> Lsp ->
+  (forall it, In it items -> forallb (mac_in mt) (item_nodes it) = true) ->
+  In e (compile_trace lprim lmod asm fext binds big sigok gfuel St psem msem nsem win wout swsel dynsem rfuel s0 import_events
+          mode items) ->
+  exists it, In it items /\ gated_item it = false /\
+    In e (ctrace lprim lmod asm fext binds big sigok gfuel St psem msem nsem win wout swsel dynsem rfuel s0 import_events mode it).
+Proof. exact compile_calls_from_exceptions. Qed.
+
 (** Non-vacuity: with concrete label-respecting semantics, a pure tree (a modifier running an
     operand twice around pure primitives, through a function call) is accepted and silent, while the
     same tree with a system function is refused and does emit. *)
@@ -221,6 +268,10 @@ Print Assumptions C20_purity_subtree.
 Print Assumptions C20_safe_backend_denies.
 Print Assumptions C20_tables_consistent.
 Print Assumptions C20_defaults_host_free.
+Print Assumptions C20_const_binding_silent.
+Print Assumptions C20_gated_compile_silent.
+Print Assumptions C20_gated_compile_lsp_readonly.
+Print Assumptions C20_compile_calls_from_exceptions.
 Print Assumptions C20_labels_refuted_pre.
 Print Assumptions C20_labels_repaired.
 Print Assumptions C20_compile_restores_state.
